@@ -235,10 +235,17 @@ def crop_paths(ctx):
         for n, c, nm in all_calls(ctx, fi):
             if nm != "os.path.join":
                 continue
-            v = ConstFold(ctx, fi, {"crop_location": LOCATION_STANDIN}, lenient=True).ev(c)
-            if isinstance(v, str) and v.startswith(LOCATION_STANDIN + "/"):
-                rel = tuple(v[len(LOCATION_STANDIN) + 1:].split("/"))
-                out.append((fi, c, rel))
+            from ..util import call_site_envs
+            envs = [{}]
+            if any(isinstance(x, ast.Name) and x.id in fi.params and x.id not in ("self", "crop") for x in ast.walk(c)):
+                envs = [e for e, _ in call_site_envs(ctx, fi)] or [{}]
+            for env in envs:
+                env = dict(env)
+                env.setdefault("crop_location", LOCATION_STANDIN)
+                v = ConstFold(ctx, fi, env, lenient=True).ev(c)
+                if isinstance(v, str) and v.startswith(LOCATION_STANDIN + "/"):
+                    rel = tuple(v[len(LOCATION_STANDIN) + 1:].split("/"))
+                    out.append((fi, c, rel))
     return out
 
 
